@@ -167,9 +167,14 @@ impl<CS: BbsCiphersuite> BlindSignature<BBSplus<CS>> {
             Some(api_id)
         )?;
 
+        // a value decoded from JSON may carry the variant of another scheme
+        let Self::BBSplus(signature) = self else {
+            return Err(Error::InvalidSignature);
+        };
+
         core_verify::<CS>(
             pk,
-            self.bbsPlusBlindSignature(),
+            signature,
             &message_scalars,
             generators,
             header,
